@@ -127,13 +127,15 @@ def run(ck):
     for i in range(n):
         ng = rng.choice([1, 2, 2, 3])
         outmode = rng.choice(["absent", "given", "given", "missing-dir"])
-        prefix = "" if outmode == "absent" else ("out/" if outmode == "given" else "nodir/")
+        # (the output directory is used as it is written: a blank at either end of its name belongs to the name)
+        dname = rng.choice(["out", "out", "out", "out ", " out", "o ut", "out\t"]) if outmode == "given" else "nodir"
+        prefix = "" if outmode == "absent" else dname + "/"
         # now and then a request that does not fit in a pipe's buffer (a generator that does not read it breaks the pipe)
         files = [("S", "a.slice", SRC if rng.random() < 0.85 else SRC + "".join("struct Filler%d { a: int32, b: Sequence<string> }\n" % q for q in range(2500)))]
         if rng.random() < 0.3:
             files.append(("R", "r.slice", "module R\ncustom C\n"))
         if outmode == "given":
-            files.append(("D", "out", ""))
+            files.append(("D", dname, ""))
         gens, fs, kinds = [], {}, []
         for k in range(ng):
             name, reply, mtok, kind = behaviour(rng, k)
@@ -178,7 +180,8 @@ def run(ck):
                     fs[path] = "W"
             else:
                 mat.append((k, nm, t))
-        extra = ["--diagnostic-format", "json"] + ([] if outmode == "absent" else ["-O", prefix.rstrip("/")])
+        # (allowing lints, all of them even, silences no error: a generator that cannot be run or fails is reported all the same)
+        extra = ["--diagnostic-format", "json"] + ([] if outmode == "absent" else ["-O", prefix.rstrip("/")]) + rng.choice([[], [], ["--allow", "All"], ["-A", "All"], ["-A", "Deprecated", "-A", "All"]])
         rlines.append(dc.run_line(False, extra, [(g[0], g[1], g[2]) for g in gens], mat))
         mlines.append("main - 0 G %s FS %s" % (" ".join(g[3] for g in gens), " ".join("%s=%s" % (p.encode().hex(), r) for p, r in fs.items())))
         metas.append((gens, mat, fs, prefix, outmode, kinds))
